@@ -212,6 +212,18 @@ CORE = [
     ("tuple", (P(attr=IGN), P(attr=S), P())),
 ]
 
+# `not(source)` / `not(backtrace)` on a NON-candidate field, declared before / after the candidate selected by name (named) or as the
+# non-backtrace field of a two-field tuple: the un-attributed candidate stays selected.  Struct AND variant form in every tier (the
+# struct path decides "is an un-attributed field enabled" from the first attributed field, the variant path does not).
+NOT_ATTR_BESIDE_CANDIDATE = [
+    ("named", (N("other", "i32", NB), N("source"))), ("named", (N("source"), N("other", "i32", NB))),
+    ("named", (N("other", attr=NS), N("source"))), ("named", (N("source"), N("other", attr=NS))),
+    ("named", (N("other", "i32", NS), N("source"), N("backtrace", "bt"))),
+    ("named", (N("source"), N("other", attr=NB), N("other2", "i32"))),
+    ("tuple", (P(), P("bt", NS))), ("tuple", (P("bt", NS), P())),
+]
+CORE += NOT_ATTR_BESIDE_CANDIDATE
+
 ATTRS = {"src": [None, S, NS, IGN, NB, B, BS], "i32": [None, NS, IGN, NB], "bt": [None, B, NB, IGN, NS]}
 
 
@@ -514,7 +526,8 @@ def singles(tier):
         add("enum", shape, fields)
         # quick: the struct form as well wherever struct and variant rendering can differ (ignored fields) and for <= 1 field
         # ... and wherever the selected field is not the first one (member access `self.<i>` vs pattern binding)
-        if tier == "thorough" or any(ign(f) for f in fields) or len(fields) <= 1 or (expect(shape, fields) or 0) > 0:
+        if tier == "thorough" or any(ign(f) for f in fields) or len(fields) <= 1 or (expect(shape, fields) or 0) > 0 \
+                or (shape, fields) in NOT_ATTR_BESIDE_CANDIDATE:
             add("struct", shape, fields)
     for shape, fields in QUICK_FLAVOURED:
         for fs, g in flavours(shape, fields):
